@@ -849,3 +849,10 @@ def shrink(case, fails):
             t = copy.deepcopy(cur); t[k] = v
             if still(t): cur = t; break
     return cur
+
+# ------------------------------------------------------------------ translator hook
+def translate(repo, gen_dir):
+    """regenerate Gen/C01_Kernel.v (meiosis kernel, mat_dh/mat_mate/dense_*, the statements of every protocol's mate(), the metadata
+    hand-over) from the current source; fail closed"""
+    from translate import c01_kernel
+    return [c01_kernel.translate(repo, gen_dir)]
